@@ -15,12 +15,17 @@ const ENTRY_MENU = [
   { name: 'm', kind: 'method', optional: false },
   { name: 'm', kind: 'method', optional: true },
   { name: 'g', kind: 'getter', optional: false, type: 'string' },
+  // keys that are not identifiers or strings in the source: numeric, computed string literal; a member without annotation
+  { name: '1', key: '1', kind: 'prop', optional: false, type: 'string', special: true },
+  { name: 'ck', key: "['ck']", kind: 'prop', optional: true, type: 'number', special: true },
+  { name: 'na', kind: 'prop', optional: true, type: null },
 ];
 const keySrc = (n) => (/^[A-Za-z_$][\w$]*$/.test(n) ? n : `'${n}'`);
 function memberSrc(e) {
-  if (e.kind === 'method') return `${keySrc(e.name)}${e.optional ? '?' : ''}(): void`;
-  if (e.kind === 'getter') return `get ${keySrc(e.name)}(): ${e.type}`;
-  return `${keySrc(e.name)}${e.optional ? '?' : ''}: ${e.type}`;
+  const k = e.key || keySrc(e.name);
+  if (e.kind === 'method') return `${k}${e.optional ? '?' : ''}(): void`;
+  if (e.kind === 'getter') return `get ${k}(): ${e.type}`;
+  return `${k}${e.optional ? '?' : ''}${e.type === null ? '' : ': ' + e.type}`;
 }
 const members = (m) => m.map(memberSrc).join('; ');
 const lit = (m) => `{ ${members(m)} }`;
@@ -63,8 +68,8 @@ const ENC = {
   exportedAlias: (m, c) => { const n = c.fresh('E'); const i = c.inner(m); return { type: n, decls: i.decls.concat([`export type ${n} = ${i.type};`]), map: i.map }; },
   partial: (m, c) => { const i = c.inner(m); return { type: `Partial<${i.type}>`, decls: i.decls, map: i.map.map((e) => (e.kind === 'getter' ? e : Object.assign({}, e, { optional: true }))) }; },
   required: (m, c) => { const i = c.inner(m); return { type: `Required<${i.type}>`, decls: i.decls, map: i.map.map((e) => (e.kind === 'getter' ? e : Object.assign({}, e, { optional: false }))) }; },
-  pick: (m, c) => { if (!m.length) return null; const i = c.inner(m.concat([EXTRA])); return { type: `Pick<${i.type}, ${m.map((e) => `'${e.name}'`).join(' | ')}>`, decls: i.decls, map: i.map.filter((e) => e.name !== 'zz') }; },
-  pickAlias: (m, c) => { if (!m.length) return null; const k = c.fresh('K'); const i = c.inner(m.concat([EXTRA])); return { type: `Pick<${i.type}, ${k}>`, decls: i.decls.concat([`type ${k} = ${m.map((e) => `'${e.name}'`).join(' | ')};`]), map: i.map.filter((e) => e.name !== 'zz') }; },
+  pick: (m, c) => { if (!m.length || m.some((e) => e.special)) return null; const i = c.inner(m.concat([EXTRA])); return { type: `Pick<${i.type}, ${m.map((e) => `'${e.name}'`).join(' | ')}>`, decls: i.decls, map: i.map.filter((e) => e.name !== 'zz') }; },
+  pickAlias: (m, c) => { if (!m.length || m.some((e) => e.special)) return null; const k = c.fresh('K'); const i = c.inner(m.concat([EXTRA])); return { type: `Pick<${i.type}, ${k}>`, decls: i.decls.concat([`type ${k} = ${m.map((e) => `'${e.name}'`).join(' | ')};`]), map: i.map.filter((e) => e.name !== 'zz') }; },
   omit: (m, c) => { const i = c.inner(m.concat([EXTRA])); return { type: `Omit<${i.type}, 'zz'>`, decls: i.decls, map: i.map.filter((e) => e.name !== 'zz') }; },
   index: (m, c) => { const n = c.fresh('O'); const i = c.inner(m); return { type: `${n}['k']`, decls: i.decls.concat([`type ${n} = { k: ${i.type}; other: string };`]), map: i.map }; },
   indexIface: (m, c) => { const n = c.fresh('O'); const i = c.inner(m); return { type: `${n}['k']`, decls: i.decls.concat([`interface ${n} { k: ${i.type}; other: string }`]), map: i.map }; },
